@@ -36,7 +36,7 @@ def box_mesh(fam, rng, n=None, distort=True, lengths=None, curved_interior=False
         sel = mid & ~onb
         X[sel] += 0.04 * h * rng.uniform(-1, 1, (int(sel.sum()), dim))
         mesh = mesh.copy(points=X)
-    return mesh, L
+    return gen.renumber(mesh), L
 
 
 def field_for(fam, mesh, kind):
